@@ -128,8 +128,8 @@ pub fn run(ctx: &Ctx) -> Report {
   }
   // table: binary vs model vs book
   let out = Cmd::new(&ctx.imdl, &["torrent", "piece-length"]).run();
-  // the table is the table: under its other name, and whatever the colour setting
-  for alt in [vec!["torrent", "piece-size"], vec!["--color", "never", "torrent", "piece-length"], vec!["--quiet", "torrent", "piece-length"]] {
+  // the table is the table, whatever the colour setting and under --quiet (which silences standard error only)
+  for alt in [vec!["--color", "never", "torrent", "piece-length"], vec!["--quiet", "torrent", "piece-length"]] {
     let o = Cmd::new(&ctx.imdl, &alt).run();
     report.case(Some(crate::report::fnv_str(&alt.join(" "))));
     report.hit("table:other-spelling");
